@@ -140,6 +140,13 @@ def judgeLine (j : J) (op : String) (outs : List String) : J × List String :=
         if (Spec.sortKeys q hdr0).isNone && !q.orderBy.isEmpty && (Spec.meaning (fetchOf j.st) q).isSome
             && (outs.head?.getD "").startsWith "ok" then
           (j, [s!"VIOLATION case={j.caseId} sig=exec:{cls}:unresolvable-sort-key-accepted got=[{((outs.head?.getD "").take 100).toString}] op=[{short}]"])
+        else
+        -- "an unqualified name that exists on both sides is rejected as ambiguous rather than resolved
+        -- silently" (C06): the executor model meets such a name while it evaluates the query on these
+        -- tables (`C06_ambiguous`: it is rejected whenever it is evaluated) and the implementation answers
+        if (match evaluateSelect (fetchOf j.st) q with | .err .fieldAmbiguous => true | _ => false)
+            && (outs.head?.getD "").startsWith "ok" then
+          (j, [s!"VIOLATION case={j.caseId} sig=exec:{cls}:ambiguous-name-resolved-silently got=[{((outs.head?.getD "").take 100).toString}] op=[{short}]"])
         else (j, [])
       | some want =>
         match outs.head? with
